@@ -57,6 +57,15 @@ fn run_walk(wk: Walk, w: &mut Worker) {
             }
             w.report.distinct(&format!("{}|{}|{}", wk.alg.name(), lvs, counter));
         }
+        if counter + 1 == total {
+            // the last leaf with a storage layer that refuses: nothing may be released, and the
+            // key must stay where it is
+            let refused = libcall::sign_bytes(wk.alg, &blob, b"c05 refused", Cb::Refuse, None);
+            w.report.eval();
+            if refused.result.is_ok() {
+                w.report.violation(&key("released_at_last_leaf_although_refused"), "the signature that uses the last leaf was released although the key update was refused (the stored key still has a lifetime of 1)", replay(counter, &blob));
+            }
+        }
         let entry = if counter % 3 == 1 { SignEntry::TrySign } else { SignEntry::Bytes };
         let rec = match entry {
             SignEntry::Bytes => libcall::sign_bytes(wk.alg, &blob, b"c05", Cb::Accept, None),
@@ -236,6 +245,10 @@ pub fn run(ctx: &Ctx) -> Report {
         for (spec, every) in specs {
             walks.push(Walk { alg, levels: levels(&spec), seed: rng.bytes(alg.n()), every });
         }
+        // degenerate seeds: a live key whose seed is all zero (or all ones) is not a wiped key
+        walks.push(Walk { alg, levels: levels(&[(2, 8)]), seed: vec![0u8; alg.n()], every: true });
+        walks.push(Walk { alg, levels: levels(&[(2, 4), (2, 8)]), seed: vec![0u8; alg.n()], every: true });
+        walks.push(Walk { alg, levels: levels(&[(2, 8)]), seed: vec![0xffu8; alg.n()], every: true });
     }
     walks.sort_by(|a, b| {
         let ca = shared::sign_cost(a.alg, &a.levels) * hss::total_leaves(&a.levels) as f64 * if a.every { 2.0 } else { 1.0 };
